@@ -1,6 +1,7 @@
 package main
 
 import (
+	"regexp"
 	"fmt"
 	"go/token"
 	"go/types"
@@ -694,6 +695,14 @@ func (f *frame) doUnOp(i *ssa.UnOp, st *State, pc string) {
 			f.vals[i] = v
 			return
 		}
+		if gl, ok := i.X.(*ssa.Global); ok && gl.Pkg != g.P.SPkg {
+			// a value-typed variable of another package (e.g. binary.BigEndian, an empty struct used
+			// as a method namespace): only its methods' models matter
+			if stt, ok := gl.Type().Underlying().(*types.Pointer).Elem().Underlying().(*types.Struct); ok && stt.NumFields() == 0 {
+				f.vals[i] = T{"0", "Int"}
+				return
+			}
+		}
 		// load of a whole struct through a pointer: rebuild the value from the field heaps
 		if pt, ok := i.X.Type().Underlying().(*types.Pointer); ok {
 			if stt, ok := pt.Elem().Underlying().(*types.Struct); ok {
@@ -818,6 +827,9 @@ func (f *frame) binop(i *ssa.BinOp, pc string) T {
 			fn := map[token.Token]string{token.ADD: "fadd", token.SUB: "fsub", token.MUL: "fmul"}[i.Op]
 			return T{"(" + fn + " " + a.S + " " + b.S + ")", "F64"}
 		case "Int":
+			if i.Op == token.MUL {
+				return T{mulTerm(a.S, b.S), "Int"}
+			}
 			op := map[token.Token]string{token.ADD: "+", token.SUB: "-", token.MUL: "*"}[i.Op]
 			return T{"(" + op + " " + a.S + " " + b.S + ")", "Int"}
 		}
@@ -828,9 +840,9 @@ func (f *frame) binop(i *ssa.BinOp, pc string) T {
 		if a.So == "Int" {
 			f.panicOb("div", pc, not(eq(b.S, "0")), i.Pos(), "integer division by zero")
 			if i.Op == token.QUO {
-				return T{"(tdiv " + a.S + " " + b.S + ")", "Int"}
+				return T{divTerm("tdiv", a.S, b.S), "Int"}
 			}
-			return T{"(tmod " + a.S + " " + b.S + ")", "Int"}
+			return T{divTerm("tmod", a.S, b.S), "Int"}
 		}
 	case token.LAND, token.LOR:
 		if a.So == "Bool" {
@@ -920,6 +932,23 @@ func (f *frame) doSlice(i *ssa.Slice, st *State, pc string) {
 		if b, ok := arr.Elem().(*types.Basic); ok && (b.Kind() == types.Byte || b.Kind() == types.Uint8) {
 			if arr.Len() == 0 {
 				f.vals[i] = T{"(mk false eps)", "NB"} // []byte{}
+				return
+			}
+			if al, ok := i.X.(*ssa.Alloc); ok && al.Comment == "makeslice" {
+				// make([]byte, n, cap): n zero bytes (their values are not tracked beyond the length)
+				if hi == "" {
+					hi = fmt.Sprint(arr.Len())
+				}
+				if lo == "" {
+					lo = "0"
+				}
+				if hi == lo || hi == "0" {
+					f.vals[i] = T{"(mk false eps)", "NB"}
+					return
+				}
+				z := g.s.decl("zeros", "B")
+				g.s.assumeUnder(pc, eq("(blen "+z.S+")", "(- "+hi+" "+lo+")"))
+				f.vals[i] = T{"(mk false " + z.S + ")", "NB"}
 				return
 			}
 			fail("%s: byte array literals are outside the subset", f.fn.Name())
@@ -1309,4 +1338,26 @@ func (f *frame) runDefers(st *State, pc string) {
 		_, nst := g.mergeStates([]edge{{and(pc, flag), with}, {and(pc, not(flag)), st}})
 		*st = *nst
 	}
+}
+
+var reIntLit = regexp.MustCompile(`^(-?\d+|\(- \d+\))$`)
+
+// mulTerm: a product with a literal factor stays linear arithmetic; a product of two symbolic
+// integers is the uninterpreted imul (commutative, with 0 and 1 as usual): nonlinear integer
+// arithmetic inside quantified invariants made obligations depend on solver luck.
+func mulTerm(a, b string) string {
+	if reIntLit.MatchString(a) || reIntLit.MatchString(b) {
+		return "(* " + a + " " + b + ")"
+	}
+	return "(imul " + a + " " + b + ")"
+}
+
+// divTerm: Go's truncated division by a literal is the defined tdiv / tmod (linear for the
+// solvers); by a symbolic divisor it is the uninterpreted utdiv / utmod (the same function of its
+// arguments in code and in contracts; no arithmetic fact about it is used).
+func divTerm(name, a, b string) string {
+	if reIntLit.MatchString(b) {
+		return "(" + name + " " + a + " " + b + ")"
+	}
+	return "(u" + name + " " + a + " " + b + ")"
 }
